@@ -1,7 +1,7 @@
 """C03 -- shock response spectrum (partial claim, DESIGN.md section 3).
 
 Every rule decides on *values*: the anchored functions of pyyeti/srs.py (the six coefficient functions, `_process_ic`, `srs`, the
-`_dosrs*` workers, `vrs`, the peak selectors) are evaluated on symbols by `c03_sem.Ev3` - module-level helpers followed, module-level
+`_dosrs*` workers, `vrs`, `srs_frf` (rule R9 in `c03_frf.py`), the peak selectors) are evaluated on symbols by `c03_sem.Ev3` - module-level helpers followed, module-level
 constants folded, option strings seeded as values, undecided tests explored both ways - and the values that reach `lfilter`, the peak
 function, the response-history stores, the allocations and the `return` are compared with the expected expressions.  No rule looks at
 the spelling of a local name, at statement order, at which arm of an `if` holds what, or at whether a block sits in a helper.
@@ -954,6 +954,18 @@ def r6_vrs(ctx):
                               None if ok else {"integrand": repr(integrand)[:500]})
                     if ok:
                         weights.setdefault(fn_given, []).append((gr, w, stn))
+                        # the weights are the documented `delta freq_i`: on a uniformly spaced grid every definition of it (forward, backward, central) is the step
+                        try:
+                            uw = c03_frf.uniform_weights(S_, w, G)
+                            h = F.sym("<h>")
+                            ok_i = uw["interior"].equals(h)
+                            ok_e = all(uw[k].equals(h) or uw[k].equals(h / 2) for k in ("first", "last"))
+                            ctx.check(ok_i, f"{tag}: on a uniformly spaced integration grid every interior weight is the step (delta freq_i)", stn,
+                                      None if ok_i else {"interior weight": repr(uw["interior"])})
+                            ctx.check(ok_e, f"{tag}: on a uniformly spaced integration grid the two end weights are the step (or half of it)", stn,
+                                      None if ok_e else {"first": repr(uw["first"]), "last": repr(uw["last"])})
+                        except Unsupported as e:
+                            ctx.error(f"{tag}: quadrature weights on a uniform grid", stn, str(e))
                 if gr:
                     # resp['psd'][k] = |T|^2 PSD
                     try:
@@ -961,6 +973,9 @@ def r6_vrs(ctx):
                     except Unsupported as e:
                         ctx.error(f"{tag}: resp", S_.ret_node(), str(e))
                         ent = {}
+                    fv = ent.get("f", [None])[-1]
+                    ok = fv is not None and not is_unknown(fv) and not isinstance(fv, (tuple, DictValue)) and need(fv).equals(need(G))
+                    ctx.check(ok, f"{tag}: resp['f'] is the grid the responses are computed on", S_.ret_node(), None if ok else repr(fv)[:200])
                     pv = ent.get("psd", [None])[-1]
                     bname = sym_of(pv) if pv is not None and not is_unknown(pv) and not isinstance(pv, (tuple, DictValue)) else None
                     pc = S_.cells(bname) if bname else []
@@ -1005,6 +1020,17 @@ def r6_vrs(ctx):
                       None if ok else {"getresp": repr(a_[0])[:300], "no getresp": repr(b_[0])[:300]})
     if nm < 4:
         raise AnchorError("vrs: expected a Miles estimate in each of the four regimes")
+    # without getmiles and getresp the spectrum alone is returned
+    for fn_given in (True, False):
+        tag = f"vrs (Fn {'given' if fn_given else 'None'}, getmiles=False, getresp=False)"
+        try:
+            rets = [S_.ret() for _dec, S_ in explore(ctx, fn, SRS, fixed=_vrs_fixed(fn_given, set(params)), env={"getresp": FALSE, "getmiles": FALSE},
+                                                     hooks=(_psd_hook([]),))]
+        except Unsupported as e:
+            ctx.error(f"{tag}: evaluation", fn, str(e))
+            continue
+        ok = bool(rets) and all(r is not None and not isinstance(r, (tuple, DictValue)) and not is_unknown(r) for r in rets)
+        ctx.check(ok, f"{tag}: only the spectrum is returned", fn, None if ok else [repr(r)[:200] for r in rets][:3])
 
 
 # ---------------------------------------------------------------------------------------------------------------- eqsine
@@ -1149,7 +1175,7 @@ RULES = [
     ("C03-R2", r2_zero_limits, 12),
     ("C03-R3", r3_dc_gain, 40),
     ("C03-R4", r4_windows, 110),
-    ("C03-R6", r6_vrs, 12),
+    ("C03-R6", r6_vrs, 22),
     ("C03-R7", r7_eqsine, 7),
     ("C03-R8", r8_peak_selectors, 7),
     ("C03-R9", c03_frf.rule, 40),
@@ -1162,7 +1188,11 @@ EXPLANATION = ("Static, for all Q>0.5, dT, wn: each of the six SRS coefficient f
                "of the one-step recurrence); wn==0 branches are the wn->0 limits; srs() itself is evaluated on symbols once per regime of its "
                "options: steady-state add-back equals DC gain times the removed offset at the serial site and in every worker, window start / "
                "history length / time vector / appended cycle per time option and rolloff regime, eqsine division; vrs integrand, response PSD "
-               "and Miles closed forms; peak selectors. Does not decide lfilter, resampling quality, vrs quadrature weights.")
+               "and Miles closed forms, quadrature weights on a uniform grid; peak selectors; srs_frf per option regime and per uniform world of the "
+               "oscillators (all elastic / all rigid): |frf| before the expansion onto the analysis grid, grid = frf_frq + p_peak*srs_frq with p_peak the "
+               "maximiser of |H|, response = H(f/fn) |frf|(f) with the base-drive transfer function derived in the checker, peak over the grid, resp "
+               "dictionary, scale_by_Q_only, default srs_frq and return tuple. Does not decide lfilter, resampling quality, the vrs quadrature weights on a "
+               "non-uniform grid, the interpolation kernel.")
 MANIFEST = {
     "text": "Partial claim decided statically for all parameters: (R1) every SRS coefficient function's general branch equals, "
             "as an exact symbolic identity, the ramp-invariant digital filter derived in the checker from the damped-oscillator ODE; "
@@ -1173,8 +1203,14 @@ MANIFEST = {
             "ceil(sr/min f) of zeros - in the frame of the original signal for ic='steady' - is appended for total / residual; "
             "(R6) both vrs loops integrate the closed-form transmissibility times the PSD on the same grid with the same weights, resp['psd'] and Miles' "
             "expression; (R7) eqsine = /Q exactly once on the returned spectrum and history; (R8) each peak selector (abs, pos, poss, neg, negs, rms) "
-            "returns its stated statistic along the time axis and `_process_inputs` maps each name to the function with that value. "
-            "Not decided: scipy.signal.lfilter realising the recursion, resampling/rolloff quality, vrs quadrature weights.",
+            "returns its stated statistic along the time axis and `_process_inputs` maps each name to the function with that value; "
+            "(R9) srs_frf: the FRF that enters the response is |frf| interpolated from frf_frq onto the analysis grid (magnitude before interpolating), "
+            "the grid contains frf_frq and p_peak*srs_frq with p_peak a stationary point of |H|^2, the reported value is the maximum over the grid of "
+            "|H(f/fn)| |frf|(f) and resp['frfs'] the complex H(f/fn) |frf|(f) with H = (1 + j p/Q)/(1 - p^2 + j p/Q), rigid oscillators get the limit 0, "
+            "scale_by_Q_only gives exactly Q |frf| at the oscillator frequencies, srs_frq=None means frf_frq/p_peak (frf_frq with scale_by_Q_only), the "
+            "return tuple follows return_srs_frq / getresp; (R6 also) on a uniform grid every interior vrs weight is the step and the end weights the step "
+            "or half of it. Not decided: scipy.signal.lfilter realising the recursion, resampling/rolloff quality, vrs quadrature weights on a non-uniform "
+            "grid (the docstring does not define delta freq_i), scipy's interp1d.",
     "note": "Trusted: CPython ast, verifier/e2_formula.py exact algebra (self-checks its reference homogeneous solution against the ODE on every run). "
             "Assumes scipy.signal.lfilter implements the difference equation of (b, a).",
     "technique": "symbolic evaluation of the anchored functions per option regime (helpers inlined, constants folded, undecided tests explored) + exact "
